@@ -1,7 +1,9 @@
 import Ivg.Lemmas.EncoderProto
 import Ivg.Lemmas.Selectors
 import Ivg.Model.Arc
-import Ivg.Gen.Tie
+import Ivg.Gen.Tie.EncoderFields
+import Ivg.Gen.Tie.GradientFields
+import Ivg.Gen.Tie.RendererFields
 import Ivg.Obligations
 /-!
 # C17 — the output of an Encoder / Renderer depends only on the calls since its last Reset
